@@ -1,40 +1,85 @@
-(* Correspondence check for C32: one GET/HEAD of a stored blob on the real
-   volume server handler (GetOrHeadHandler over a real Store), with the Range
-   and Accept-Encoding headers, against the model of model/HttpRange.v. *)
-From Coq Require Import List NArith ZArith Bool String.
+(* Correspondence check for C32.  Two kinds of cases:
+   CGet   one GET/HEAD of a stored blob on the real volume server handler (GetOrHeadHandler
+          over a real Store), with the Range and Accept-Encoding headers, against
+          get_or_head of model/HttpRange.v;
+   CParse one call of the real parseRange (text, size) for sizes up to 2^63-1 against
+          parse_range. *)
+From Coq Require Import List NArith ZArith Bool String Ascii.
+From Coq Require Export Uint63.   (* exported: cases.v uses %uint63 literals *)
 From SW Require Export base.Verdict model.HttpRange.
 Import ListNotations.
 
-Record case := {
+(* ---- compact byte strings: 7 bytes per primitive integer, below a leading 1 ---- *)
+Definition byte_of_int (x : Uint63.int) : N := Z.to_N (Uint63.to_Z x).
+Fixpoint unchunk (fuel : nat) (x : Uint63.int) (acc : list N) : list N :=
+  match fuel with
+  | O => acc
+  | S f => if Uint63.leb x 1%uint63 then acc   (* the leading "1" *)
+           else unchunk f (Uint63.lsr x 8%uint63) (byte_of_int (Uint63.land x 255%uint63) :: acc)
+  end.
+Definition unpack (cs : list Uint63.int) : list N := flat_map (fun c => unchunk 8 c []) cs.
+(* header values that are not printable ASCII are given as bytes *)
+Definition str_of_bytes (l : list N) : string :=
+  fold_right (fun n s => String (ascii_of_N n) s) EmptyString l.
+(* the blobs of sizes 0..6 are "abcdef" prefixes *)
+Definition letters (n : nat) : blob := map (fun i => (97 + N.of_nat i)%N) (seq 0 n).
+
+Record get_case := {
   c_head : bool;                    (* HEAD instead of GET *)
+  c_dl : bool;                      (* ?dl=true *)
   c_flag : bool;                    (* needle stored with the IsCompressed flag *)
   c_data : blob;                    (* needle data as stored *)
-  c_plain : blob;                   (* what the harness compressed (= c_data when not gzip) *)
+  c_plain : option blob;            (* Some p: what util.DecompressData returns on c_data (None: not asked, = c_data) *)
+  c_gzok : bool;                    (* util.DecompressData returned no error *)
+  c_name : string;                  (* needle name *)
+  c_mime : string;                  (* needle mime *)
+  c_extmime : string;               (* mime.TypeByExtension(filepath.Ext(name)) *)
   c_ae : string;                    (* Accept-Encoding header, "" = absent *)
   c_range : string;                 (* Range header, "" = absent *)
-  c_specs : option (list rspec);    (* Some l when c_range was printed from l *)
-  (* implementation observables *)
+  c_items : option (list item);     (* Some l when c_range is the spelling l of a structured header *)
+  (* implementation observables: the headers the handler set when it wrote the status line, and the body *)
   i_status : N;
+  i_ct : string;                    (* Content-Type (multipart: media type only) *)
+  i_cdisp : string;                 (* Content-Disposition *)
+  i_ar : bool;                      (* Accept-Ranges: bytes *)
   i_cr : option crange;             (* Content-Range header *)
-  i_cl : option Z;                  (* Content-Length header (multipart: header minus encoded body size) *)
-  i_body : body;                    (* 416 bodies projected to empty *)
+  i_cl : option Z;                  (* Content-Length header *)
+  i_body : body;
   i_gzip : bool                     (* Content-Encoding: gzip *)
 }.
 
-Definition stored_of (c : case) : stored :=
-  {| st_flag := c_flag c; st_data := c_data c; st_plain := c_plain c |}.
-Definition impl_of (c : case) : response :=
-  {| r_status := i_status c; r_cr := i_cr c; r_cl := i_cl c; r_body := i_body c |}.
+Record parse_case := {
+  p_range : string;
+  p_size : Z;
+  p_items : option (list item);
+  p_res : option (list range)       (* what parseRange returned; None = error *)
+}.
+
+Inductive case := CGet (g : get_case) | CParse (p : parse_case).
+
+Definition stored_of (c : get_case) : stored :=
+  {| st_flag := c_flag c; st_data := c_data c;
+     st_plain := match c_plain c with Some p => p | None => c_data c end;
+     st_gzok := c_gzok c; st_name := c_name c; st_mime := c_mime c; st_extmime := c_extmime c |}.
+Definition impl_of (c : get_case) : response :=
+  {| r_status := i_status c; r_ct := i_ct c; r_cr := i_cr c; r_cl := i_cl c; r_body := i_body c |}.
 
 Definition nonempty_body (r : response) : bool :=
   match r_body r with
-  | Plain b _ => negb (match b with [] => true | _ => false end)
-  | Multipart ps => existsb (fun p => negb (match snd p with [] => true | _ => false end)) ps
+  | Plain b _ => negb (is_nil b)
+  | Multipart _ ps _ _ => existsb (fun p => negb (is_nil (snd p))) ps
   end.
 
-Definition check (c : case) : outcome :=
+(* the structured reading of the header is accepted only if it really spells the header *)
+Definition items_match (its : option (list item)) (hdr : string) : bool :=
+  match its with
+  | Some l => items_ok l && String.eqb (render_header l) hdr
+  | None => true
+  end.
+
+Definition check_get (c : get_case) : outcome :=
   let s := stored_of c in
-  let m := get_or_head (c_head c) s (c_ae c) (c_range c) in
+  let m := get_or_head (c_head c) (c_dl c) s (c_ae c) (c_range c) in
   let impl := impl_of c in
   (* property side: the representation is determined by the encoding the implementation chose *)
   let rep := representation s (i_gzip c) in
@@ -42,26 +87,54 @@ Definition check (c : case) : outcome :=
   let size := blen (fst (negotiate s (c_ae c))) in
   let range_trig :=
     if c_head c || str_empty (c_range c) then None
-    else match c_specs c with
-         | Some sps => trig_specs sps size
+    else match c_items c with
+         | Some its => trig_specs (specs_of its) size
          | None => trig_parsed (parse_range (c_range c) size) size
          end in
   {| o_corr := response_eqb (f_resp m) impl && Bool.eqb (f_gzip m) (i_gzip c)
-               && match c_specs c with
-                  | Some sps => String.eqb (print_header sps) (c_range c)
-                  | None => true
-                  end;
-     o_prop := gzip_ok s (c_ae c) (i_gzip c)
+               && String.eqb (f_cdisp m) (i_cdisp c) && Bool.eqb (f_ar m) (i_ar c)
+               && items_match (c_items c) (c_range c)
+               (* the declared assumption about the framing arithmetic holds on every generated case *)
+               && mp_fits_hdr (c_range c) (fst (negotiate s (c_ae c))) (mime_of s);
+     o_prop := gzip_ok s (c_ae c) (i_gzip c) && rep_ok s (i_gzip c)
                && (if c_head c then head_ok rep impl
                    else if str_empty (c_range c) then full_200 rep impl
-                   else match c_specs c with
-                        | Some sps => spec_ok rep sps impl
+                   else match c_items c with
+                        | Some its => spec_ok rep (specs_of its) impl
                         | None => self_consistent rep impl
                         end);
      o_trig := match range_trig with
                | Some k => Some k
-               | None => if trig_gzip s (c_ae c) then Some 5%N else None
+               | None => if trig_gzip s (c_ae c) then Some 5%N
+                         else if trig_corrupt s (c_ae c) then Some 7%N else None
                end;
      o_nontrivial := ((i_status c =? 200)%N || (i_status c =? 206)%N) && nonempty_body impl |}.
+
+Definition oranges_eqb (a b : option (list range)) : bool :=
+  match a, b with
+  | Some x, Some y => ranges_eqb x y
+  | None, None => true
+  | _, _ => false
+  end.
+
+Definition check_parse (p : parse_case) : outcome :=
+  let m := parse_range (p_range p) (p_size p) in
+  {| o_corr := oranges_eqb m (p_res p) && items_match (p_items p) (p_range p)
+               && (0 <=? p_size p)%Z && (p_size p <=? int64_max)%Z;
+     o_prop := match p_items p with
+               | Some its => parse_spec_ok (specs_of its) (p_size p) (p_res p)
+               | None => parse_raw_ok (p_size p) (p_res p)
+               end;
+     o_trig := match p_items p with
+               | Some its => trig_parse_specs (specs_of its) (p_size p)
+               | None => trig_parse_raw m
+               end;
+     o_nontrivial := match p_res p with Some (_ :: _) => true | _ => false end |}.
+
+Definition check (c : case) : outcome :=
+  match c with
+  | CGet g => check_get g
+  | CParse p => check_parse p
+  end.
 
 Definition summarize_cases (l : list case) : summary := summarize check l.
